@@ -14,6 +14,7 @@ import MW.Lemmas.Deepen3Task
 import MW.Lemmas.Deepen3Ex
 import MW.Lemmas.Deepen4Resume
 import MW.Lemmas.Deepen4Ex
+import MW.Lemmas.Deepen4Unguarded
 namespace MW.Props.C06
 open MW MW.Model.Ledger MW.Model.Persist MW.Spec.Persist MW.Lemmas.PersistOp MW.Lemmas.PersistFault MW.Lemmas.PersistCrash
 
@@ -629,6 +630,45 @@ theorem crash_equiv_tasks_quiet {cfg : Cfg} {G : Block} (E : StaticOK cfg.st G) 
   Lemmas.Deepen4.crash_equiv_tasks_quiet E hG hb hl evs x0 k0 hJ hR hg1 hg2 hidle1 hidle2 hq
 
 open MW.Lemmas.Deepen3 MW.Lemmas.Deepen4 in
+/-- **worker_runs_queued** (round 4).  `stepT` lets the worker look at the stored status as well as at its queue (a queued
+    task of a ready / absent wallet is skipped).  On every reachable state that second test is implied by the first:
+    `StatOK` — one status entry per wallet, only stored keystores have one, every queued task is for an unfinished
+    wallet, no wallet is queued for a rescan and a removal at once — is kept by EVERY event from ANY state (no other
+    invariant needed; crashes included: `initTaskChan` re-queues exactly the unfinished wallets), hence the world `runU`
+    whose worker runs whatever is queued IS `runT`. -/
+theorem worker_runs_queued (cfg : Cfg) (cr : Bool) (x : SysQ) (evs : List EvT) (h : StatOK x) :
+    StatOK (runT cfg cr x evs) ∧ runU cfg cr x evs = runT cfg cr x evs :=
+  ⟨statOK_runT cfg cr x evs h, runU_eq_runT cfg cr x evs h⟩
+
+open MW.Lemmas.Deepen3 MW.Lemmas.Deepen4 in
+/-- **crash_equiv_tasks_unguarded** (round 4): `crash_equiv_tasks_quiet` (hence `crash_equiv_tasks`) for the world whose
+    worker runs whatever is queued -/
+theorem crash_equiv_tasks_unguarded {cfg : Cfg} {G : Block} (E : StaticOK cfg.st G) (hG : G.txs = []) (hb : cfg.batch > 0)
+    (hl : cfg.limit > 0) (evs : List EvT) (x0 : SysQ) (k0 : SkelT) (hJ : JT cfg G x0 k0) (hS : StatOK x0)
+    (hR : RunOKT cfg G k0 evs) (hg1 : GuardT cfg true x0 evs) (hg2 : GuardT cfg false x0 evs)
+    (hidle1 : IdleAt (runU cfg true x0 evs) (skRunT cfg k0 evs).busy)
+    (hidle2 : IdleAt (runU cfg false x0 evs) (skRunT cfg k0 evs).busy)
+    (hq : (runU cfg false x0 evs).queue = []) :
+    (runU cfg true x0 evs).queue = [] ∧
+    (runU cfg true x0 evs).chain = (runU cfg false x0 evs).chain ∧
+    (runU cfg true x0 evs).P.ks = (runU cfg false x0 evs).P.ks ∧
+    (runU cfg true x0 evs).V.keys = (runU cfg false x0 evs).V.keys ∧
+    AMap.Equiv (runU cfg true x0 evs).P.led.credits (runU cfg false x0 evs).P.led.credits ∧
+    AMap.Equiv (runU cfg true x0 evs).P.led.unspent (runU cfg false x0 evs).P.led.unspent ∧
+    AMap.Equiv (runU cfg true x0 evs).P.led.debits (runU cfg false x0 evs).P.led.debits ∧
+    AMap.Equiv (runU cfg true x0 evs).P.led.game (runU cfg false x0 evs).P.led.game ∧
+    AMap.Equiv (runU cfg true x0 evs).P.led.txrecs (runU cfg false x0 evs).P.led.txrecs ∧
+    AMap.Equiv (runU cfg true x0 evs).P.led.blocks (runU cfg false x0 evs).P.led.blocks ∧
+    AMap.Equiv (runU cfg true x0 evs).P.led.sync (runU cfg false x0 evs).P.led.sync ∧
+    (runU cfg true x0 evs).P.led.syncedTo = (runU cfg false x0 evs).P.led.syncedTo ∧
+    (runU cfg true x0 evs).V.led.best = (runU cfg false x0 evs).V.led.best ∧
+    (∀ w ∈ walletsOf (runU cfg false x0 evs).P.ks,
+      AMap.get (runU cfg true x0 evs).P.led.balance w = AMap.get (runU cfg false x0 evs).P.led.balance w ∧
+      Lemmas.Deepen3.readyB (runU cfg true x0 evs).P.led w = true ∧
+      Lemmas.Deepen3.readyB (runU cfg false x0 evs).P.led w = true) :=
+  Lemmas.Deepen4.crash_equiv_tasks_unguarded E hG hb hl evs x0 k0 hJ hS hR hg1 hg2 hidle1 hidle2 hq
+
+open MW.Lemmas.Deepen3 MW.Lemmas.Deepen4 in
 /-- a history of round-3 events is a history of this world: `crash_equiv` is the task-free instance -/
 theorem crash_equiv_tasks_conservative (cfg : Cfg) (cr : Bool) (evs : List EvQ) (x : SysQ) :
     runT cfg cr x (evs.map EvT.q) = runQ cfg.st cfg.n cr x evs := runT_q cfg cr evs x
@@ -734,6 +774,7 @@ example : Lemmas.Deepen4.RunOKT Lemmas.Deepen4.exCfg Lemmas.Ledger.hxG Lemmas.De
   Lemmas.Deepen4.exRunOKT
 example (cr : Bool) : Lemmas.Deepen4.GuardT Lemmas.Deepen4.exCfg cr Lemmas.Deepen3.exX0 Lemmas.Deepen4.exEvsT :=
   Lemmas.Deepen4.exGuard cr
+example : Lemmas.Deepen4.StatOK Lemmas.Deepen3.exX0 := Lemmas.Deepen4.exStatOK0
 example : (Lemmas.Deepen4.skRunT Lemmas.Deepen4.exCfg Lemmas.Deepen4.exK0T Lemmas.Deepen4.exEvsT).busy = none ∧
     (Lemmas.Deepen4.runT Lemmas.Deepen4.exCfg false Lemmas.Deepen3.exX0 Lemmas.Deepen4.exEvsT).queue = [] :=
   ⟨by rw [Lemmas.Deepen4.exSkelT], Lemmas.Deepen4.exQuietTT⟩
